@@ -13,16 +13,18 @@ _tag = hashlib.sha256(dump.REPO.encode()).hexdigest()[:8]
 BUILD = os.path.join(dump.CACHE, 'natdiff-build-' + _tag)
 TARGET = os.path.join(dump.CACHE, 'natdiff-target-' + _tag)
 
-def build(profile='release'):
+def build(profile='release', features=()):
     """(re)builds natdiff against the current working tree of the repository (cargo decides what is stale)"""
     os.makedirs(dump.CACHE, exist_ok=True)
-    lock = open(os.path.join(dump.CACHE, '.natdiff.lock.' + _tag), 'w'); fcntl.flock(lock, fcntl.LOCK_EX)
+    ftag = ''.join('+' + f for f in sorted(features))
+    BUILD = os.path.join(dump.CACHE, 'natdiff-build-' + _tag + ftag); TARGET = os.path.join(dump.CACHE, 'natdiff-target-' + _tag + ftag)
+    lock = open(os.path.join(dump.CACHE, '.natdiff.lock.' + _tag + ftag), 'w'); fcntl.flock(lock, fcntl.LOCK_EX)
     try:
         os.makedirs(os.path.join(BUILD, 'src'), exist_ok=True)
         src = open(os.path.join(NATDIFF, 'src', 'main.rs')).read()
         dst = os.path.join(BUILD, 'src', 'main.rs')
         if not os.path.exists(dst) or open(dst).read() != src: open(dst, 'w').write(src)
-        toml = open(os.path.join(NATDIFF, 'Cargo.toml')).read().replace('path = "/repo"', 'path = "%s"' % dump.REPO)
+        toml = open(os.path.join(NATDIFF, 'Cargo.toml')).read().replace('path = "/repo"', 'path = "%s"%s' % (dump.REPO, (', features = [%s]' % ', '.join('"%s"' % f for f in features)) if features else ''))
         tp = os.path.join(BUILD, 'Cargo.toml')
         if not os.path.exists(tp) or open(tp).read() != toml: open(tp, 'w').write(toml)
         lk = os.path.join(BUILD, 'Cargo.lock')
@@ -60,8 +62,8 @@ def case_text(cid, tmpl, values, f0, named_max):
     for op in tmpl.ops: lines.append(op_line(op))
     return '\n'.join(lines) + '\n'
 
-def run_cases(text, profile='release', timeout=600):
-    exe = build(profile)
+def run_cases(text, profile='release', timeout=600, features=()):
+    exe = build(profile, features)
     p = subprocess.run([exe], input=text.encode(), stdout=subprocess.PIPE, stderr=subprocess.PIPE, timeout=timeout)
     out = {}
     for line in p.stdout.decode().splitlines():
